@@ -421,8 +421,11 @@ macro_rules! submit_threaded_operation {
             return result_recv;
         }
 
+        // if the operation is discarded without ever being completed (client closed while it
+        // was still queued), the guard resolves the receiver instead of leaving it blocked forever
+        let result_guard = SyncResultDropGuard::new(result_send, Box::new(|| { Err(GneissError::new_client_closed()) }));
         let response_handler = Box::new(move |res| {
-            result_send.apply(res);
+            result_guard.apply(res);
             Ok(())
         });
 
@@ -433,7 +436,7 @@ macro_rules! submit_threaded_operation {
 
         let submit_result = $self.operation_sender.send(OperationOptions::$operation_type(boxed_packet, internal_options));
         if let Err(submit_error) = submit_result {
-            late_sender.apply(Err(GneissError::new_operation_channel_failure(submit_error)));
+            late_sender.try_apply(Err(GneissError::new_operation_channel_failure(submit_error.to_string())));
         }
 
         result_recv
@@ -445,8 +448,12 @@ macro_rules! submit_threaded_operation_with_callback {
         let boxed_packet = Box::new(MqttPacket::$packet_type($packet_value));
         validate_packet_outbound(&boxed_packet)?;
 
+        // if the operation is discarded without ever being completed (client closed while it
+        // was still queued), the guard invokes the callback with an error
+        let callback_guard = SyncCallbackDropGuard::new($completion_callback, Box::new(|| { Err(GneissError::new_client_closed()) }));
+        let disarm_handle = callback_guard.disarm_handle();
         let response_handler = Box::new(move |res| {
-            $completion_callback(res);
+            callback_guard.invoke(res);
             Ok(())
         });
 
@@ -457,7 +464,9 @@ macro_rules! submit_threaded_operation_with_callback {
 
         let submit_result = $self.operation_sender.send(OperationOptions::$operation_type(boxed_packet, internal_options));
         if let Err(submit_error) = submit_result {
-            return Err(GneissError::new_operation_channel_failure(submit_error));
+            // reported synchronously; the callback must not fire as well
+            disarm_handle.store(true, std::sync::atomic::Ordering::SeqCst);
+            return Err(GneissError::new_operation_channel_failure(submit_error.to_string()));
         }
 
         Ok(())
